@@ -584,7 +584,7 @@ func TestC04(t *testing.T) {
 		defer mc.Close()
 		defer mc.Guard(t)
 		cfg := TxnCfg{Prop: "C04", MaxSteps: 8, Deletes: true, Inserts: true, Merges: true, Direct: true, SafeValue: c04SafeValue,
-			NoStoreOnDel: KFActive("f11-store-and-delete-same-txn")}
+			NoStoreOnDel: KFActive("f11-store-and-delete-same-txn"), NoOpAfterLenMerge: KFActive("f15-difflen-merge-reorder")}
 		f13 := KFActive("f13-aggregates-ignore-presence")
 		f14 := KFActive("f14-withunion-single-widens")
 		f25 := KFActive("f25-union-after-missing-name")
